@@ -158,5 +158,17 @@ theorem unchanged_rowsMatch (F : BodyFn) (P : Project) (g : G) (cfg : Cfg) (s : 
     · rw [hsu] at h1; cases h1
   exact (scan_unchanged_iff P g s.w t.id _ _).1 (setupChain_unchanged P g cfg s t _ hchain)
 
+/-- The loop writes nothing but products of tasks of the project. -/
+theorem buildLoop_fs_frame {F : BodyFn} {P : Project} {g : G} {cfg : Cfg} :
+    ∀ (picks : List Nat) {so so' : Sorter} {s s' : Sess}, buildLoop F P g cfg so s picks = .ok (so', s') →
+      ∀ q, (∀ t ∈ P.tasks, q ∉ t.prods) → lookup s'.w.fs q = lookup s.w.fs q
+  | [], so, so', s, s', h, q, _ => by
+    simp only [buildLoop, Except.ok.injEq, Prod.mk.injEq] at h
+    rw [← h.2]
+  | t :: ts, so, so', s, s', h, q, hq => by
+    obtain ⟨spec, hfind, _, _, _, hrest⟩ := buildLoop_cons h
+    rw [buildLoop_fs_frame ts hrest q hq]
+    exact protocol_fs_frame F P g cfg s spec q (hq spec (find?_mem hfind))
+
 end Engine
 end Pytask
